@@ -22,6 +22,7 @@ var classProps = map[string][]string{
 	"target-census-missing":    {"C05"},
 	"target-death":             {"C06"},
 	"stats":                    {"C06"},
+	"stale-under-target":       {"C06"},
 	"cache-diff":               {"C07"},
 	"batch-diff":               {"C08"},
 	"lock-not-enforced":        {"C09"},
@@ -69,6 +70,9 @@ func uniq(l []string) []string {
 func Attribute(tr *Trace, v *Violation) []string {
 	if ps, ok := classProps[v.Class]; ok {
 		out := append([]string{}, ps...)
+		for _, a := range v.Also {
+			out = append(out, classProps[a]...)
+		}
 		for _, f := range v.Facts {
 			if strings.HasPrefix(f, "underlying:") {
 				// a mismatch found right after a rejected call keeps the blame of the rejected call's property
@@ -132,6 +136,9 @@ func Attribute(tr *Trace, v *Violation) []string {
 			default:
 				out = append(out, "C03")
 			}
+		}
+		for _, a := range v.Also {
+			out = append(out, classProps[a]...)
 		}
 		// differential attribution
 		if tr != nil && tr.Plan != nil {
